@@ -872,6 +872,11 @@ class Manager:
 
             self.fire(exception(*err, handler=None, fevent=event))
 
+            # The failed task is no longer waiting, and neither is a parent
+            # that was suspended on it (it will never be resumed).
+            event.waitingHandlers = max(0, event.waitingHandlers - (2 if parent else 1))
+            self._eventDone(event, err)
+
     def tick(self, timeout=-1):
         """
         Execute all possible actions once. Process all registered tasks
